@@ -207,6 +207,29 @@ def run(ck):
                 if it[0] != 3 and isinstance(it[3], (bytes, bytearray)) and len(it[3]) > 30000:
                     shapes["big_unit"] += 1
             shapes["full" if all(mask) else "lossy"] += 1
+        # a few big units (up to 70000 bytes: must be fragmented, > 16-bit interleaved length otherwise)
+        for cd in (H264, H265):
+            for size in ([rng.randint(60000, 70000), rng.randint(5000, 30000)] if not T else
+                         [70000, 65536, rng.randint(60000, 70000), rng.randint(5000, 30000), rng.randint(30000, 60000)]):
+                u = gen_unit(rng, cd, size)
+                if cd == H264:
+                    u = bytes([u[0] & 0x7f]) + u[1:]
+                f = rng.randint(900, 1460)
+                sizes = [f] * (-(-size // f) - 1)
+                small = gen_unit(rng, cd, 20)
+                if cd == H264:
+                    small = bytes([small[0] & 0x1f | 0x41 & 0x60]) + small[1:]
+                    small = bytes([0x41]) + small[1:]
+                else:
+                    small = bytes([0x02, 0x01]) + small[2:]
+                items = [[0, 500, 0, small], [2, 3500, 1, u, sizes], [0, 6500, 1, small]]
+                tot = len(sizes) + 3
+                m = [1] * tot
+                if rng.random() < 0.5:
+                    m[rng.randrange(1, tot - 1)] = 0
+                plans.append([cd, 90000, 0, 65000, items, [0, m]])
+                shapes["big_unit"] += 1
+                shapes["full" if all(m) else "lossy"] += 1
         # every loss position of one fragmented unit between two others (both video codecs)
         for cd in (H264, H265):
             u0, u1, u2 = gen_unit(rng, cd, 40), gen_unit(rng, cd, 900), gen_unit(rng, cd, 30)
@@ -221,6 +244,8 @@ def run(ck):
                 for b in range(a + 1, 11):
                     m = [1] * tot; m[a] = 0; m[b] = 0
                     plans.append([cd, 90000, 0, 65530, items, [0, m]])
+        wf = vlib.run_driver(ck.prop, "C06_wf", [vlib.vs(p) for p in plans])
+        ck.extra["loss_cases_inside_theorem_guard"] = "%d of %d" % (sum(1 for x in wf if x == "1"), len(wf))
         cases = with_wire(ck, plans)
         ck.stream("loss", cases, "C06_run", "C06", "C06_ok", nontrivial=nontrivial,
                   sig=lambda c, e, o: "depack-loss-" + ("h264", "h265", "aac")[c[0][0]], sample=4)
